@@ -87,6 +87,99 @@
 (assert (forall ((f Float)) (! (and (<= (- 9223372036854775808) (int.of.float.int f)) (< (int.of.float.int f) 9223372036854775808)) :pattern ((int.of.float.int f)))))
 
 ;@module sums
-(define-unfold sum.bm.amount ((a (Array Int cashu.BlindedMessage)) (n Int)) Int (ite (<= n 0) 0 (+ (sum.bm.amount a (- n 1)) (cashu.BlindedMessage.Amount (select a (- n 1))))))
-(define-unfold sum.proof.amount ((a (Array Int cashu.Proof)) (n Int)) Int (ite (<= n 0) 0 (+ (sum.proof.amount a (- n 1)) (cashu.Proof.Amount (select a (- n 1))))))
-(define-unfold sum.sig.amount ((a (Array Int cashu.BlindedSignature)) (n Int)) Int (ite (<= n 0) 0 (+ (sum.sig.amount a (- n 1)) (cashu.BlindedSignature.Amount (select a (- n 1))))))
+; Prefix sums of amounts.  Amounts are clamped at 0 (`nn`) so that the sums are
+; non-negative for every array; on values read from memory the clamp is the
+; identity because every uint64 field carries its range fact.
+(define-fun nn ((x Int)) Int (ite (< x 0) 0 x))
+(define-unfold sum.bm.amount ((a (Array Int cashu.BlindedMessage)) (n Int)) Int (ite (<= n 0) 0 (+ (sum.bm.amount a (- n 1)) (nn (cashu.BlindedMessage.Amount (select a (- n 1)))))))
+(define-unfold sum.proof.amount ((a (Array Int cashu.Proof)) (n Int)) Int (ite (<= n 0) 0 (+ (sum.proof.amount a (- n 1)) (nn (cashu.Proof.Amount (select a (- n 1)))))))
+(define-unfold sum.sig.amount ((a (Array Int cashu.BlindedSignature)) (n Int)) Int (ite (<= n 0) 0 (+ (sum.sig.amount a (- n 1)) (nn (cashu.BlindedSignature.Amount (select a (- n 1)))))))
+;@module sums.ax
+;@attach sums
+; non-negativity and frame under an update at or beyond the prefix: both are
+; inductive facts, proved as base + step lemmas in contracts/lemmas.gvc (the
+; lemma queries are generated WITHOUT this module)
+(assert (forall ((a (Array Int cashu.BlindedMessage)) (n Int)) (! (>= (sum.bm.amount a n) 0) :pattern ((sum.bm.amount a n)))))
+(assert (forall ((a (Array Int cashu.Proof)) (n Int)) (! (>= (sum.proof.amount a n) 0) :pattern ((sum.proof.amount a n)))))
+(assert (forall ((a (Array Int cashu.BlindedSignature)) (n Int)) (! (>= (sum.sig.amount a n) 0) :pattern ((sum.sig.amount a n)))))
+(assert (forall ((a (Array Int cashu.BlindedSignature)) (i Int) (v cashu.BlindedSignature) (n Int)) (! (=> (<= n i) (= (sum.sig.amount (store a i v) n) (sum.sig.amount a n))) :pattern ((sum.sig.amount (store a i v) n)))))
+(assert (forall ((a (Array Int cashu.Proof)) (i Int) (v cashu.Proof) (n Int)) (! (=> (<= n i) (= (sum.proof.amount (store a i v) n) (sum.proof.amount a n))) :pattern ((sum.proof.amount (store a i v) n)))))
+(assert (forall ((a (Array Int cashu.BlindedMessage)) (i Int) (v cashu.BlindedMessage) (n Int)) (! (=> (<= n i) (= (sum.bm.amount (store a i v) n) (sum.bm.amount a n))) :pattern ((sum.bm.amount (store a i v) n)))))
+
+;@module hex
+(declare-fun hexenc (Bytes) Str)
+(declare-fun hexdec (Str) Bytes)
+(declare-fun hexok (Str) Bool)
+(assert (forall ((b Bytes)) (! (and (hexok (hexenc b)) (= (hexdec (hexenc b)) b) (= (slen (hexenc b)) (* 2 (blen b))) (canonhex (hexenc b))) :pattern ((hexenc b)))))
+(assert (forall ((s Str)) (! (=> (hexok s) (= (slen s) (* 2 (blen (hexdec s))))) :pattern ((hexdec s)))))
+(assert (forall ((s Str)) (! (=> (canonhex s) (and (hexok s) (= (hexenc (hexdec s)) s))) :pattern ((canonhex s)))))
+
+;@module hash
+(declare-fun sha256 (Bytes) Bytes)
+(assert (forall ((b Bytes)) (! (= (blen (sha256 b)) 32) :pattern ((sha256 b)))))
+
+;@module group
+;@gotype github.com/decred/dcrd/dcrec/secp256k1/v4.PublicKey
+;@gotype github.com/decred/dcrd/dcrec/secp256k1/v4.PrivateKey
+;@gotype github.com/decred/dcrd/dcrec/secp256k1/v4.ModNScalar
+;@gotype github.com/decred/dcrd/dcrec/secp256k1/v4.JacobianPoint
+;@gotype github.com/decred/dcrd/dcrec/secp256k1/v4.FieldVal
+(declare-sort Pt 0)
+(declare-sort Sc 0)
+(declare-const pt.O Pt)
+(declare-const pt.G Pt)
+(declare-fun padd (Pt Pt) Pt)
+(declare-fun pneg (Pt) Pt)
+(declare-fun smul (Sc Pt) Pt)
+(declare-fun sadd (Sc Sc) Sc)
+(declare-fun smulS (Sc Sc) Sc)
+(declare-fun sneg (Sc) Sc)
+(declare-const sc.0 Sc)
+(declare-fun pt.ser (Pt) Bytes)
+(declare-fun pt.seru (Pt) Bytes)
+(declare-fun pt.parse (Bytes) Pt)
+(declare-fun pt.parseok (Bytes) Bool)
+(declare-fun pk.pt (github.com/decred/dcrd/dcrec/secp256k1/v4.PublicKey) Pt)
+(declare-fun mk.pk (Pt) github.com/decred/dcrd/dcrec/secp256k1/v4.PublicKey)
+(declare-fun sc.of (github.com/decred/dcrd/dcrec/secp256k1/v4.ModNScalar) Sc)
+(declare-fun sc.ser (Sc) Bytes)
+(declare-fun sc.frombytes (Bytes) Sc)
+(declare-fun h2c (Bytes) Pt)
+(assert (forall ((p Pt)) (! (and (= (blen (pt.ser p)) 33) (pt.parseok (pt.ser p)) (= (pt.parse (pt.ser p)) p)) :pattern ((pt.ser p)))))
+(assert (forall ((p Pt)) (! (= (pk.pt (mk.pk p)) p) :pattern ((mk.pk p)))))
+(define-fun Yof ((s Str)) Str (hexenc (pt.ser (h2c (bytesOf s)))))
+
+;@module errors
+(declare-fun err.is (Iface Iface) Bool)
+(assert (forall ((e Iface)) (! (=> (not (= e nil.Iface)) (err.is e e)) :pattern ((err.is e e)))))
+
+;@module db hex group
+; Ghost model of storage.MintDB (DESIGN.md §5.1).  Keys: Y (hex) for the two
+; proof tables, quote id for the quote tables, B_ (hex) for blind_signatures.
+;@ghost db.spent (Array Str Bool)
+;@ghost db.spentrow (Array Str mint/storage.DBProof)
+;@ghost db.pending (Array Str Bool)
+;@ghost db.pendrow (Array Str mint/storage.DBProof)
+;@ghost db.mq (Array Str Bool)
+;@ghost db.mqrow (Array Str mint/storage.MintQuote)
+;@ghost db.melt (Array Str Bool)
+;@ghost db.meltrow (Array Str mint/storage.MeltQuote)
+;@ghost db.sig (Array Str Bool)
+;@ghost db.sigrow (Array Str SigRow)
+;@ghost db.faults Int
+(declare-datatypes ((SigRow 0)) (((mk.SigRow (SigRow.Amount Int) (SigRow.C_ Str) (SigRow.Id Str) (SigRow.E Str) (SigRow.S Str)))))
+(define-fun rowOf ((p cashu.Proof)) mint/storage.DBProof (mk.mint/storage.DBProof (cashu.Proof.Amount p) (cashu.Proof.Id p) (cashu.Proof.Secret p) (Yof (cashu.Proof.Secret p)) (cashu.Proof.C p) (cashu.Proof.Witness p) str.empty))
+(define-fun pendRowOf ((p cashu.Proof) (q Str)) mint/storage.DBProof (mk.mint/storage.DBProof (cashu.Proof.Amount p) (cashu.Proof.Id p) (cashu.Proof.Secret p) (Yof (cashu.Proof.Secret p)) (cashu.Proof.C p) (cashu.Proof.Witness p) q))
+
+;@module fees sums
+(define-unfold fee.sum ((a (Array Int cashu.Proof)) (h (Array Str Bool)) (v (Array Str crypto.MintKeyset)) (n Int)) Int (ite (<= n 0) 0 (+ (fee.sum a h v (- n 1)) (ite (select h (cashu.Proof.Id (select a (- n 1)))) (nn (crypto.MintKeyset.InputFeePpk (select v (cashu.Proof.Id (select a (- n 1)))))) 0))))
+(define-fun fee.tx ((a (Array Int cashu.Proof)) (h (Array Str Bool)) (v (Array Str crypto.MintKeyset)) (n Int)) Int (div (mod (+ (mod (fee.sum a h v n) 18446744073709551616) 999) 18446744073709551616) 1000))
+
+;@module fees.ax
+;@attach fees
+(assert (forall ((a (Array Int cashu.Proof)) (h (Array Str Bool)) (v (Array Str crypto.MintKeyset)) (n Int)) (! (>= (fee.sum a h v n) 0) :pattern ((fee.sum a h v n)))))
+
+;@module sumlemmas
+(define-fun store.sig ((a (Array Int cashu.BlindedSignature)) (i Int) (v cashu.BlindedSignature)) (Array Int cashu.BlindedSignature) (store a i v))
+(define-fun store.proof ((a (Array Int cashu.Proof)) (i Int) (v cashu.Proof)) (Array Int cashu.Proof) (store a i v))
+(define-fun store.bm ((a (Array Int cashu.BlindedMessage)) (i Int) (v cashu.BlindedMessage)) (Array Int cashu.BlindedMessage) (store a i v))
